@@ -111,12 +111,12 @@ macro_rules | `(tactic| sim_leaf) => `(tactic| exact sim_applyVoid _ _ _ _)
 theorem sim_scalarDivider (o : Ops V) (inp : String) (arg : V) (out : String) :
     Sim n (fun _ => True) (scalarDivider (σ := St V) o inp arg out) (scalarDivider (σ := ATab V) o inp arg out) := by
   unfold scalarDivider
-  sim_auto
+  exact sim_applyVoid o _ inp out
 
 theorem sim_scalarRevDivider (o : Ops V) (inp : String) (arg : V) (out : String) :
     Sim n (fun _ => True) (scalarRevDivider (σ := St V) o inp arg out) (scalarRevDivider (σ := ATab V) o inp arg out) := by
   unfold scalarRevDivider
-  sim_auto
+  exact sim_applyVoid o _ inp out
 
 theorem sim_shiftCircular (o : Ops V) (inp : String) (arg : V) (out : String) :
     Sim n (fun _ => True) (shiftCircular (σ := St V) o inp arg out) (shiftCircular (σ := ATab V) o inp arg out) := by
